@@ -1,4 +1,5 @@
-"""Obligations for C09 (v1 Valid/Compact/Indent/HTMLEscape against the real encoding/json)."""
+"""Obligations for C09 (v1 Valid/Compact/Indent/HTMLEscape and the reflection-based entry points Marshal/MarshalIndent/
+Unmarshal/Decoder/Encoder against the real encoding/json)."""
 import os
 from oblib import ob
 
@@ -9,17 +10,35 @@ BOUNDS = {
              "(Valid, Compact); Indent for the five (prefix,indent) pairs (\"\",\"\") (\"\",\"\\t\") (\"\",\"  \") (\">\",\"x\") (\"p\",\" \") and "
              "additionally (\">\",\"\") on every string of length 4 over {}[]:,\"a1 space and on skeletons with 1-3 unconstrained bytes "
              "(trailing whitespace after a scalar, array element, object member value); Valid/Compact/HTMLEscape skeletons listed in the "
-             "obligation arguments. Outside: longer inputs, other prefix/indent strings, Marshal/Unmarshal/Encoder/Decoder and every other "
-             "reflection-based entry point of package v1, error message text and offsets, non-empty destination contents other than \"#\".",
+             "obligation arguments. Reflection-based entry points (typed harness, real Go types handed unchanged to both packages): "
+             "Marshal and MarshalIndent ((\"\",\"\\t\") and (\">\",\"x\")) of 8 type families (struct tags name/omitempty/omitzero/string/-; embedded struct "
+             "and embedded pointer with a name conflict; map[string]int8, map[int8]string, map[string]bool; []byte, [2]int8, [2]byte, []int8, []string, [0]int8; "
+             "*int8, *string, **bool, any holding bool/string/nil pointer/[]any/map; MarshalJSON (value and pointer receiver), MarshalText, text-marshaling map keys; "
+             "encoding/json.RawMessage and v1.RawMessage fields; strings with 1-2 unconstrained bytes incl. HTML characters, U+2028 prefixes and ill-formed UTF-8) "
+             "with every int8/bool value; Unmarshal of the same families (plus float32/float64 with the string option on 21 concrete texts, and an any target) on "
+             "the listed skeletons with 1-2 unconstrained bytes in member names, values, quoted numbers, duplicates, unknown members, with targets pre-filled "
+             "by sentinels (compared field by field; untouched on syntax errors); Decoder call sequences of 3 calls from {Decode, Token, More} + InputOffset "
+             "after every call on 8 skeletons (UseNumber, DisallowUnknownFields variants) until the first error; Encoder with SetIndent/SetEscapeHTML variants, "
+             "two values. Outside: longer inputs, other prefix/indent strings, other Go types (floats on symbolic text, time, wide integers, channels...), "
+             "v1.Number/encoding/json.Number (different types in the two packages), Decoder.Buffered, calls after the first error, error message text and "
+             "offsets, the target value after a semantic error, non-empty destination contents other than \"#\".",
     "thorough": "As quick with: all byte strings of length <=3 (Valid, Compact, Indent for (\"\",\"\") and (\">\",\"x\")) resp. <=4 "
                 "(HTMLEscape); Sigma24 strings of length 5 and 6 (Valid, Compact) resp. 5 (Indent, five pairs); more skeletons incl. three "
-                "trailing unconstrained bytes after an array.",
+                "trailing unconstrained bytes after an array; typed part: all skeletons of the lists TM/TU/TD/TE, MarshalIndent for every family, Decoder "
+                "sequences of 3 and 4 calls, Decode into any as well as into int8/struct.",
 }
 ASSUMPTIONS = [
     "oracle = source of encoding/json of the Go toolchain the engine loads (go1.26.8), executed symbolically next to the v1 code",
     "sync.Pool (jsontext decoder/encoder pools, encoding/json scanner pool) modelled sequentially by the engine",
     "The former cut for inputs on which v1.Indent did not terminate (non-blank prefix, empty indent; finding KF-C09-indent-trailing-ws) was removed after fix 4952b30: those inputs are explored again and a disagreement anywhere is a violation",
     "error values are compared only for presence (nil / non-nil); SyntaxError text and Offset are not compared",
+    "typed part: reflect.Type/reflect.Value are the engine's go/types-backed model (engine/reflect.go) for BOTH packages; decimal formatting of symbolic int8 "
+    "values is the engine's contract stub; strconv.ParseFloat on symbolic text is an uninterpreted function shared by both packages (so float VALUES from "
+    "symbolic digits are compared only up to that function; the float32/float64 range checks use concrete texts); syntactic validity of an Unmarshal input is "
+    "decided by encoding/json.Valid",
+    "typed part, recorded findings (AssertKF, tight regions in the harness): KF-C09-invalid-utf8-literal (Marshal bytes for ill-formed UTF-8), "
+    "KF-C09-quoted-number-lead and KF-C09-quoted-string-strict (`string` tag option on decode), KF-C09-decode-at-object-name, "
+    "KF-C09-more-before-invalid-close, KF-C09-more-at-truncation (Decoder)",
 ]
 
 AR = ["accept", "reject"]
@@ -82,7 +101,7 @@ TM = [
     (4, 0, "", OK, 1), (4, 1, "?", OK, 1), (4, 2, "?", OK, 1),
     (5, 0, "?", OKERR, 1), (5, 0, ' [?, "?"] ', OKERR, 0), (5, 1, "??", OK, 1), (5, 2, "[?]", OKERR, 1), (5, 3, "?", OKERR, 1),
     (6, 0, "?", OKERR, 1), (6, 0, '{"a" :?}', OKERR, 1), (6, 0, '{"?" :?}', OKERR, 0), (6, 1, "?", OKERR, 1), (6, 2, "[?]", OKERR, 1), (6, 3, "", OK, 1),
-    (7, 0, "??", OK, 1), (7, 0, "%E2%80?", OK, 1), (7, 1, "?&", OK, 1), (7, 2, "?%FF", OK, 1), (7, 4, "?", OK, 1),
+    (7, 0, "??", OK, 1), (7, 0, "%E2%80?", OK, 1), (7, 1, "?&", OK, 1), (7, 2, "?%FF", [], 1), (7, 4, "?", OK, 1),
     (7, 0, "???", OK, 0), (7, 1, "%E2??", OK, 0),
 ]
 QUICK_INDENT = {(0, 0), (1, 1), (2, 1), (3, 2), (4, 2), (5, 0), (6, 0), (7, 0)}  # MarshalIndent families of the quick tier
@@ -143,7 +162,8 @@ TD = [
     (' 1 ?', 2, False, False, ["decoded", "token", "error"], 1),
     ('1?2', 2, True, False, ["decoded", "token"], 0),
     ('{"a" :? , "b":2}', 2, False, False, ["decoded", "token"], 0),
-    ('[1]?', 2, False, False, ["decoded", "token", "token-eof"], 1),
+    ('[]?', 2, False, False, ["token", "token-eof"], 1),
+    ('[1]?', 2, False, False, ["decoded", "token"], 0),
     # Decode into an any (needs reflect.Value.Equal on a zero Value and Value.NumMethod in the engine)
     ('[1 ,?]', 0, False, False, ["decoded", "token", "more"], 0),
     ('[1 ,?]', 0, True, False, ["decoded", "token"], 0),
